@@ -348,6 +348,19 @@ fn add_assign_binary(dest: &mut [u64], src: &[u64])
                     'body_top': 'let ghost verif_prev = out@;',
                     'body_bottom': ('proof { assert forall |r: int| start_row as int <= r < row as int + 1 && cell(*self, r, col as int) implies exists |k: int| 0 <= k < out@.len() && #[trigger] out@[k] as int == r by {'
                                     ' if r == row as int { assert(out@[out@.len() - 1] as int == r); } else { let k0 = choose |k: int| 0 <= k < verif_prev.len() && #[trigger] verif_prev[k] as int == r; assert(out@[k0] == verif_prev[k0]); } } }')}})
+    # the two allocating wrappers: same contract as the _into forms, on the returned vector
+    u.fn('src/matrix.rs', 'query_non_zero_columns', impl=T, ret='r',
+         requires=['dm_wf(*self)', '(row as int) < self.height', 'start_col <= self.width'],
+         ensures=['forall |k: int| 0 <= k < r@.len() ==> start_col as int <= (#[trigger] r@[k]) as int && (r@[k] as int) < self.width && cell(*self, row as int, r@[k] as int)',
+                  'forall |k: int, l: int| 0 <= k < l < r@.len() ==> r@[k] < r@[l]',
+                  'forall |c: int| start_col as int <= c < self.width && cell(*self, row as int, c) ==> exists |k: int| 0 <= k < r@.len() && #[trigger] r@[k] as int == c'],
+         resubst=[(r'let mut cols = Vec::with_capacity\(', 'let mut cols: Vec<usize> = Vec::with_capacity(', 'type-annotation')])
+    u.fn('src/matrix.rs', 'get_ones_in_column', impl=T, ret='r',
+         requires=['dm_wf(*self)', '(col as int) < self.width', 'start_row <= end_row', 'end_row <= self.height', 'self.height <= 0xff_ffff'],
+         ensures=['forall |k: int| 0 <= k < r@.len() ==> start_row as int <= (#[trigger] r@[k]) as int && (r@[k] as int) < end_row as int && cell(*self, r@[k] as int, col as int)',
+                  'forall |k: int, l: int| 0 <= k < l < r@.len() ==> r@[k] < r@[l]',
+                  'forall |q: int| start_row as int <= q < end_row as int && cell(*self, q, col as int) ==> exists |k: int| 0 <= k < r@.len() && #[trigger] r@[k] as int == q'],
+         resubst=[(r'let mut rows = Vec::with_capacity\(', 'let mut rows: Vec<u32> = Vec::with_capacity(', 'type-annotation')])
     u.raw('}')
     u.raw('} // verus!')
     return u
